@@ -220,8 +220,9 @@ func wf(o pdf.Object, L lim, d int) bool {
 	case pdf.String:
 		return len(x) < L.str
 	case pdf.Reference:
-		// the two numbers are tokens, subject to the token length limit
-		return len(strconv.FormatUint(uint64(x.Number()), 10)) <= L.name && len(strconv.FormatUint(uint64(x.Generation()), 10)) <= L.name
+		// a reference whose number is not below maxXRefSize is read back as null (the writer
+		// refuses it); the two numbers are tokens, subject to the token length limit
+		return x.Number() < maxXRef && len(strconv.FormatUint(uint64(x.Number()), 10)) <= L.name && len(strconv.FormatUint(uint64(x.Generation()), 10)) <= L.name
 	case pdf.Array:
 		if x == nil {
 			return true
@@ -250,6 +251,57 @@ func wf(o pdf.Object, L lim, d int) bool {
 			}
 		}
 		return n <= L.dict
+	}
+	return false
+}
+
+// numsFit: the number tokens of the value fit ReadNumber's buffer (maxNameBytes); always so
+// under the standard limits.
+func numsFit(o pdf.Object, L lim) bool {
+	switch x := o.(type) {
+	case pdf.Integer:
+		return wf(x, L, 0)
+	case pdf.Real:
+		if f := float64(x); math.IsNaN(f) || math.IsInf(f, 0) {
+			return true // no number token at all
+		}
+		return wf(x, L, 0)
+	case pdf.Reference:
+		return len(strconv.FormatUint(uint64(x.Number()), 10)) <= L.name && len(strconv.FormatUint(uint64(x.Generation()), 10)) <= L.name
+	case pdf.Array:
+		for _, e := range x {
+			if !numsFit(e, L) {
+				return false
+			}
+		}
+	case pdf.Dict:
+		for _, v := range x {
+			if !numsFit(v, L) {
+				return false
+			}
+		}
+	}
+	return true
+}
+
+func nonFinite(xs []pdf.Object) bool {
+	for _, o := range xs {
+		switch x := o.(type) {
+		case pdf.Real:
+			if f := float64(x); math.IsNaN(f) || math.IsInf(f, 0) {
+				return true
+			}
+		case pdf.Array:
+			if nonFinite(x) {
+				return true
+			}
+		case pdf.Dict:
+			for _, v := range x {
+				if nonFinite([]pdf.Object{v}) {
+					return true
+				}
+			}
+		}
 	}
 	return false
 }
@@ -360,6 +412,8 @@ type harness struct {
 	nlayout int
 	layoutN int
 	nbuf    int
+	nfa     int
+	nsig    map[string]int
 }
 
 func (h *harness) id(kind string) string {
@@ -459,7 +513,7 @@ func (h *harness) deterministic(xs []pdf.Object, reps int, class string) {
 // oracle: the property itself, on the implementation.
 func (h *harness) oracle(xs []pdf.Object, class string) {
 	want := "ok 0" + canonList(xs)
-	ok := true
+	ok := len(xs) <= h.L.arr // the hook's wrapper array
 	for _, x := range xs {
 		if !wf(x, h.L, 1) {
 			ok = false
@@ -576,7 +630,7 @@ func (h *harness) buffered(text []byte, sizes string) {
 // objects: one case of object values: oracle, (a) and (b).
 func (h *harness) objects(xs []pdf.Object, class string, nontrivial bool) {
 	h.oracle(xs, class)
-	inLimits := true
+	inLimits := len(xs) <= h.L.arr // the hook's wrapper array
 	for _, x := range xs {
 		if !wf(x, h.L, 1) {
 			inLimits = false
@@ -588,6 +642,56 @@ func (h *harness) objects(xs []pdf.Object, class string, nontrivial bool) {
 	for _, x := range xs {
 		if hasDict2(x) {
 			dict2 = true
+		}
+	}
+	// what the writer accepts: Format takes the values as the elements of an array exactly when
+	// they are within the limits the reader applies to the elements of an array (F60-F62), so
+	// that no accepted value fails to read back
+	{
+		elems := append(pdf.Array{}, xs...)
+		_, aerr := realFormat(0, []pdf.Object{elems})
+		fit := true
+		for _, x := range xs {
+			if !numsFit(x, h.L) {
+				fit = false
+			}
+		}
+		h.e.Evaluations++
+		if fit && (aerr == nil) != inLimits {
+			h.nsig["accept-vs-limits"]++
+			if h.nsig["accept-vs-limits"] <= 5 {
+				t, _ := realFormat(0, xs)
+				if len(t) > 200 {
+					t = append(t[:200:200], "..."...)
+				}
+				back := "-"
+				if aerr == nil {
+					full, _ := realFormat(0, xs)
+					back = realScan(full)
+					if len(back) > 200 {
+						back = back[:200] + "..."
+					}
+				}
+				h.e.Fail("accept-vs-limits", fmt.Sprintf("%s: Format([values]) returns %v but the values are within the reader's limits: %v; text %q reads back as %s (limits %v)", class, aerr, inLimits, t, back, h.L),
+					map[string]any{"values": rawList(xs), "limits": []int{h.L.str, h.L.name, h.L.arr, h.L.dict, h.L.depth}})
+			}
+		}
+		if aerr == nil && fit && !inLimits {
+			return
+		}
+		// model vs implementation: format_checked (top level, nothing encloses the values)
+		h.nfa++
+		if nonFinite(xs) {
+			// NaN and the infinities are not values of the model (OReal is a finite real's token)
+		} else if !inLimits || strings.HasPrefix(class, "limit") || strings.HasPrefix(class, "nest") || h.nfa%16 == 0 {
+			_, terr := realFormat(0, xs)
+			id := h.id("f")
+			obs := "accept"
+			if terr != nil {
+				obs = "refuse"
+			}
+			h.e.Line("cases.txt", "%s FA %s", id, rawList(xs))
+			h.e.Line("impl.obs", "%s %s", id, obs)
 		}
 	}
 	if dict2 && inLimits {
@@ -963,7 +1067,7 @@ func nested(depth int, leaf pdf.Object, useDict bool) pdf.Object {
 
 func phase1() {
 	e := common.New(1)
-	h := &harness{e: e, pfx: "o"}
+	h := &harness{e: e, pfx: "o", nsig: map[string]int{}}
 	h.useLimits(stdLim)
 
 	// 0. corpus of hand-written texts, (c), and as string/name buffers
@@ -1248,6 +1352,27 @@ func phase1() {
 		h.objects([]pdf.Object{h.rreal(), h.rint(), h.rreal()}, "random-numbers", true)
 	}
 
+	// 3b. values of the Go types that have no text the reader would read back: reals that are
+	// not finite, references whose number is not below maxXRefSize.  The writer must refuse
+	// them (or the round trip fails for a value it accepted).
+	h.pfx = "u"
+	{
+		var bad []pdf.Object
+		for _, f := range []float64{math.NaN(), math.Inf(1), math.Inf(-1)} {
+			bad = append(bad, pdf.Real(f))
+		}
+		for _, n := range []uint64{maxXRef, maxXRef + 1, 1 << 31, 1<<32 - 1} {
+			bad = append(bad, pdf.Reference(n), pdf.Reference(n|uint64(maxGen)<<32))
+		}
+		bad = append(bad, pdf.NewReference(maxXRef-1, 0), pdf.NewReference(maxXRef-1, maxGen))
+		for _, v := range bad {
+			h.objects([]pdf.Object{v}, "unwritable", true)
+			h.objects([]pdf.Object{pdf.Integer(1), v, pdf.Name("N")}, "unwritable", false)
+			h.objects([]pdf.Object{pdf.Array{pdf.Integer(7), v}}, "unwritable", false)
+			h.objects([]pdf.Object{pdf.Dict{"K": v, "L": pdf.Array{v}}}, "unwritable", false)
+		}
+	}
+
 	// 4. nesting up to and beyond the depth limit
 	h.pfx = "d"
 	for _, d := range []int{1, 2, 10, 100, 253, 254, 255, 256, 257, 300} {
@@ -1306,6 +1431,14 @@ func phase1() {
 		"<</F#310x86>>", "<</F10x8#36>>", "<</F10x86>", "<</F10x86", "[<</ABCDEF>>/ABCDEF/ABCDE]", "<</ABCDEF>>>>"} {
 		h.text([]byte(t), "limit-key")
 	}
+	// nil entries are not written: neither their keys nor their number count
+	h.objects([]pdf.Object{pdf.Dict{"ABCDEFGH": nil, "A": pdf.Integer(1)}}, "limit-nil-entry", true)
+	h.objects([]pdf.Object{pdf.Dict{"A": pdf.Integer(1), "B": pdf.Integer(2), "C": pdf.Integer(3), "D": nil, "E": nil}}, "limit-nil-entry", true)
+	h.objects([]pdf.Object{pdf.Dict{"A": pdf.Integer(1), "B": pdf.Integer(2), "C": pdf.Integer(3), "D": pdf.Array(nil)}}, "limit-nil-entry", true)
+	h.objects([]pdf.Object{pdf.Array{pdf.Dict{"K": pdf.String("1234567")}, pdf.Dict{"K": pdf.String("12345678")}}}, "limit-nested", true)
+	h.objects([]pdf.Object{pdf.Array{pdf.Array{pdf.Name("ABCDE")}, pdf.Array{pdf.Name("ABCDEF")}}}, "limit-nested", true)
+	h.objects([]pdf.Object{pdf.Integer(1), pdf.Integer(2), pdf.Integer(3), pdf.Integer(4), pdf.Integer(5)}, "limit-toplevel", true)
+	h.objects([]pdf.Object{pdf.Integer(1234567)}, "limit-number", true)
 	for n := 0; n <= 12; n++ {
 		s := bytes.Repeat([]byte{'a'}, n)
 		b := bytes.Repeat([]byte{0xfe}, n)
